@@ -130,6 +130,32 @@ def ctor_calls(S, qname):
     return [c for c in S.select("call", qname=qname) if c.target == ND + "__init__"]
 
 
+def ctor_rules(rep, prog):
+    """what every query reads: the constructor stores exactly the given moments (copies, no change of values or dtype) and
+    rejects a size mismatch before anything is stored"""
+    f4 = need(prog, ND + "__init__")
+    S4 = Sym(prog)
+    run_function(S4, f4)
+    want = npred(("cmp", "!=", ("ext", "len", (("param", "mean"),), ()), ("ext", "len", (("param", "covariance"),), ())), True)
+    hit = None
+    for r in S4.select("raise", qname=f4.qname):
+        if r.exctype == "ValueError" and r.path and r.path[-1][1] is True and npred(strip_wrappers(r.path[-1][0]), True) == want:
+            hit = r
+    if hit is None:
+        rep.bad("GUARD.ctor", fwhere(f4), "no ValueError exactly when len(mean) != len(covariance)")
+    else:
+        stores = S4.select("attrstore", qname=f4.qname)
+        late = [s for s in stores if (hit.path[-1][0], False) not in s.path]
+        rep.check("GUARD.ctor", not late and len(stores) >= 2, fwhere(f4, hit.node), "size mismatch raises ValueError before anything is stored",
+                  "attributes are stored without passing the size check")
+    st = {s.attr: s.value for s in S4.select("attrstore", qname=f4.qname)}
+    ok = strip_wrappers(st.get("mean", ())) == ("method", ("param", "mean"), "copy", (), ()) and \
+        strip_wrappers(st.get("covariance", ())) == ("method", ("param", "covariance"), "copy", (), ())
+    ok = ok or (MNF().nf(st.get("mean", ("const", 0))) == rA(("param", "mean")) and MNF().nf(st.get("covariance", ("const", 0))) == rA(("param", "covariance")))
+    rep.check("CTOR.roles", ok, fwhere(f4), "self.mean <- mean, self.covariance <- covariance", "self.mean / self.covariance are not (copies of) the given mean / covariance: self.mean = %s, self.covariance = %s" % (
+                  fmt(st.get("mean", ("const", None)))[:70], fmt(st.get("covariance", ("const", None)))[:70]))
+
+
 def run(prog, rep, tier):
     inl = lambda f: f.qname == U + "matrix_block"
     M = MNF(symmetric=[C])
@@ -216,27 +242,7 @@ def run(prog, rep, tier):
     ref = rB(("param", "M"), ("param", "rows"), ("param", "cols"))
     rep.check("FORMULA.matrix_block", MN.key(got) == MN.key(ref), fwhere(f3), "matrix_block(M, rows, cols) = M[rows, cols] in the given order",
               "matrix_block is %s" % MN.show(got))
-    # ---------------------------------------------------------------- constructor
-    f4 = need(prog, ND + "__init__")
-    S4 = Sym(prog)
-    run_function(S4, f4)
-    want = npred(("cmp", "!=", ("ext", "len", (("param", "mean"),), ()), ("ext", "len", (("param", "covariance"),), ())), True)
-    hit = None
-    for r in S4.select("raise", qname=f4.qname):
-        if r.exctype == "ValueError" and r.path and r.path[-1][1] is True and npred(strip_wrappers(r.path[-1][0]), True) == want:
-            hit = r
-    if hit is None:
-        rep.bad("GUARD.ctor", fwhere(f4), "no ValueError exactly when len(mean) != len(covariance)")
-    else:
-        stores = S4.select("attrstore", qname=f4.qname)
-        late = [s for s in stores if (hit.path[-1][0], False) not in s.path]
-        rep.check("GUARD.ctor", not late and len(stores) >= 2, fwhere(f4, hit.node), "size mismatch raises ValueError before anything is stored",
-                  "attributes are stored without passing the size check")
-    st = {s.attr: s.value for s in S4.select("attrstore", qname=f4.qname)}
-    ok = strip_wrappers(st.get("mean", ())) == ("method", ("param", "mean"), "copy", (), ()) and \
-        strip_wrappers(st.get("covariance", ())) == ("method", ("param", "covariance"), "copy", (), ())
-    ok = ok or (MNF().nf(st.get("mean", ("const", 0))) == rA(("param", "mean")) and MNF().nf(st.get("covariance", ("const", 0))) == rA(("param", "covariance")))
-    rep.check("CTOR.roles", ok, fwhere(f4), "self.mean <- mean, self.covariance <- covariance", "constructor stores its arguments in the wrong attributes")
+    ctor_rules(rep, prog)
     rep.assume("self.covariance is symmetric (a covariance matrix)")
     rep.assume("equality is over the reals; floating-point accuracy of inv() is not decided")
     # no branch / index of the computation may depend on the *values* of the moments
